@@ -41,6 +41,10 @@ func runC18(c *Check, tier string) {
 	ruleR05a(c, "R18d")
 	ruleR05d(c, "R18e")
 	ruleR07f(c, "R18f")
+	// the next build must be able to break the lock an interrupted build left behind
+	if li := findLocker(c, "R18g"); li != nil {
+		ruleR10b(c, li, "R18g", false)
+	}
 }
 
 func ruleR18a(c *Check) {
